@@ -35,6 +35,7 @@ structure S where
   pending : Option Nat := none     -- a fetched, not yet dispatched event for this slot, tagged with the owner it was fetched for
   pollerHolds : Bool := false      -- the poller took the token (do) and is running callbacks
   staleHolds : Bool := false       -- a stale Release took the token
+  ownerHolds : Bool := false       -- the CURRENT owner's own Release() took the token (connection.Release: do(); reset tail; done())
   bad : Bool := false              -- ghost: an event was dispatched to another owner's callbacks, or a stale call took the token of a later owner
   fdOpen : Bool := false           -- the CURRENT owner's descriptor (operator.FD) is open; earlier owners' descriptors are other kernel objects
   hupq : List Nat := []            -- hang-ups recorded through this slot (`appendHup`) that the hang-up goroutine has not delivered yet,
@@ -56,6 +57,8 @@ inductive Act where
   | staleRelease (g : Nat) (guarded : Bool)  -- a connection of generation g, already closed, calls Release;
                                              -- `guarded` = the IsActive check of fix 1c26766 is present
   | staleDone
+  | liveRelease           -- the current, not yet torn-down owner calls Release() with nothing buffered: `c.IsActive() && c.operator.do()` succeeds
+  | liveDone              -- … and leaves the section: `c.operator.done()`
   | closeFd (g : Nat)     -- the close finalizer of the owner of generation g reaches `netFD.Close()` (after `operator.Free()` returned)
   | queueHup              -- handler, token held: `appendHup` – `p.hups = append(p.hups, operator.OnHup)` (then detach, done: own actions)
   | runHup (g : Nat) (late : Bool)  -- the goroutine started by `onhups()` reaches the entry recorded for owner g – at any later time:
@@ -107,6 +110,12 @@ def step (s : S) : Act → Option S
     else none
   | .staleDone =>
     if s.staleHolds then some { s with st := 1, staleHolds := false } else none
+  | .liveRelease =>
+    -- `IsActive()` was true when evaluated (the owner's own Close may have detached since: the residual window); CAS(1,2).
+    -- While the owner holds the token the poller's `do()` fails (event skipped, fetched again: level-triggered) and `unused()` spins.
+    if s.loc = .owned ∧ (s.pc = .live ∨ s.pc = .detached) ∧ s.st = 1 then some { s with st := 2, ownerHolds := true } else none
+  | .liveDone =>
+    if s.ownerHolds then some { s with st := 1, ownerHolds := false } else none
   | .closeFd g =>
     -- initFinalizer: `c.operator.Free(); c.netFD.Close()` – the descriptor number goes back to the kernel only after
     -- `Free` (the barrier `unused()`, reset, freeable) has returned.  A finalizer of an earlier owner closes ITS descriptor.
